@@ -42,11 +42,14 @@ SymCp(sym) ==
     [] sym = "nbspE" -> 160       \* written &nbsp;
     [] sym = "spE" -> 32          \* written &#32;
     [] sym = "lt" -> 60           \* written &lt;
+    [] sym = "bs" -> 92           \* a backslash: JSX strings and text have no escape sequences
+    [] sym = "apos" -> 39         \* written &apos;
     [] OTHER -> 63
 
 (* multi-character symbols (whole words) *)
 SymWord(sym) ==
   CASE sym = "crlf" -> <<13, 10>>
+    [] sym = "bsn" -> <<92, 110>>                 \* the two characters \ and n (not a line break)
     [] sym = "w_checkbox" -> <<99, 104, 101, 99, 107, 98, 111, 120>>
     [] sym = "w_radio" -> <<114, 97, 100, 105, 111>>
     [] sym = "w_text" -> <<116, 101, 120, 116>>
